@@ -32,11 +32,14 @@ MWEM = 'mechanisms/mwem+pgm.py'
 PRIMS = [
     dict(rel=MECH, q='Mechanism.exponential_mechanism', quality='qualities', eps='epsilon', sens='sensitivity',
          flags={'isinstance(qualities, dict)': [True, False], 'base_measure': [None, 'given']}, base='base_measure'),
-    dict(rel=MECH, q='Mechanism.permute_and_flip', quality='qualities', eps='epsilon', sens='sensitivity', flags={}),
-    dict(rel=MST, q='exponential_mechanism', quality='q', eps='eps', sens='sensitivity', flags={'monotonic': [True, False]}),
-    dict(rel=AG, q='exponential_mechanism', quality='q', eps='eps', sens='sensitivity', flags={'monotonic': [True, False]}),
+    dict(rel=MECH, q='Mechanism.permute_and_flip', quality='qualities', eps='epsilon', sens='sensitivity', flags={},
+         params={'qualities', 'epsilon', 'sensitivity'}),
+    dict(rel=MST, q='exponential_mechanism', quality='q', eps='eps', sens='sensitivity', flags={'monotonic': [True, False]},
+         params={'q', 'eps', 'sensitivity', 'prng', 'monotonic'}),
+    dict(rel=AG, q='exponential_mechanism', quality='q', eps='eps', sens='sensitivity', flags={'monotonic': [True, False]},
+         params={'q', 'eps', 'sensitivity', 'prng', 'monotonic'}),
     dict(rel=MWEM, q='worst_approximated', quality='errors', eps='eps', sens=None,
-         flags={'bounded': [True, False], 'penalty': [True, False]}),
+         flags={'bounded': [True, False], 'penalty': [True, False]}, params={'workload_answers', 'est', 'workload', 'eps', 'penalty', 'bounded'}),
 ]
 
 
@@ -170,9 +173,15 @@ def run(ctx):
 
 def check_primitive(ctx, fi, spec, flags):
     ex = SymExec(fi, flags=flags, call_hook=vec_hook, vectors=True)
+    known = spec.get('params')
     for p in fi.params:
         if p != 'self':
             ex.env[p] = sym(p) if p in (spec['eps'], spec['sens'], 'sensitivity') else Opaque(p, 'param')
+            d_ = fi.defaults().get(p)
+            if known is not None and p not in known and isinstance(d_, ast.Constant) and isinstance(d_.value, (int, float)) and not isinstance(d_.value, bool):
+                # an optional parameter added later: the primitive is judged in its default configuration (what a caller passes is the caller's)
+                from ..symexpr import const as _const
+                ex.env[p] = _const(d_.value)
     if spec.get('base') and flags.get(spec['base']) is None and spec.get('base') in flags:
         ex.env.pop(spec['base'], None)
     # optional overrides (`sensitivity=None`: "use the built-in value"): the primitive is judged in its default configuration here,
